@@ -59,6 +59,7 @@ type loopInfo struct {
 	spec    *LoopSpec
 	stmt    ast.Node
 	modAll  bool
+	ghostAll bool // a call in the loop has a contract without a frame: ghost state may change too
 	mods    map[string]bool
 }
 
@@ -827,6 +828,32 @@ func (t *FnTrans) findLoops() {
 
 // loopMods: heap components written in the loop (syntactic pre-pass).
 func (t *FnTrans) loopMods(li *loopInfo) {
+	// ghost components written by site clauses located inside this loop
+	if t.con != nil {
+		for _, s := range t.con.Sites {
+			if len(s.Ghosts) == 0 {
+				continue
+			}
+			inLoop := false
+			for b := range li.blocks {
+				for _, in := range b.Instrs {
+					if t.siteMatchesInstr(s, in) {
+						inLoop = true
+					}
+				}
+			}
+			if !inLoop {
+				continue
+			}
+			for _, g := range s.Ghosts {
+				if i := strings.Index(g.Target, "\""); i >= 0 {
+					if j := strings.LastIndex(g.Target, "\""); j > i {
+						li.mods["G."+g.Target[i+1:j]] = true
+					}
+				}
+			}
+		}
+	}
 	for b := range li.blocks {
 		for _, in := range b.Instrs {
 			switch x := in.(type) {
@@ -924,8 +951,12 @@ func (t *FnTrans) callMods(c *ssa.CallCommon, li *loopInfo) {
 				return
 			}
 			li.modAll = true
+			li.ghostAll = true
 			return
 		}
+		li.modAll = true
+		li.ghostAll = true
+		return
 	}
 	li.modAll = true
 }
@@ -1323,7 +1354,17 @@ func (t *FnTrans) havocLoopState(st *HeapState, li *loopInfo) *HeapState {
 		t.note("loop %d: whole heap havocked at the loop head (unknown call or unmodelled effect in the body), except private objects' components the loop does not write", li.ordinal)
 		ns := t.newEpochState()
 		t.preserveLocalsExcept(st, ns, li.mods)
-		// ghost state changes only through contracts inside the loop; keep it unless a site updates it
+		// ghost state changes only through contracts and site clauses: keep what the loop does not write
+		var gs []string
+		for c := range t.compSorts {
+			if strings.HasPrefix(c, "G.") && !li.mods[c] && !li.ghostAll {
+				gs = append(gs, c)
+			}
+		}
+		sort.Strings(gs)
+		for _, c := range gs {
+			ns.cur[c] = t.heapGet(st, c, t.compSorts[c])
+		}
 		return ns
 	}
 	if len(li.mods) == 0 {
